@@ -387,7 +387,7 @@ func retOrdinal(f *ssa.Function, r *ssa.Return) int {
 func checkCallSitePos(c *Ctx, f *ssa.Function, site *ssa.Call, posArg ssa.Value, recCalls []*ssa.Call) {
 	r, t := c.R, c.T
 	pp := path(posArg)
-	key := fmt.Sprintf("%s %s position argument", relName(f), site.Call.StaticCallee().Name())
+	key := fmt.Sprintf("%s %s position argument", relName(f), fnName(site.Call.StaticCallee()))
 	if strings.Contains(pp, ".NamePos") && !strings.Contains(pp, "phi:") {
 		r.Ob("CALLSITE-POS", key+" #"+fmt.Sprint(retOrdinalInstr(f, site)), t.Pos(site.Pos()), true, "position is "+pp)
 		return
@@ -612,7 +612,7 @@ func checkCallSiteName(c *Ctx, f *ssa.Function, site *ssa.Call, rule string) {
 	} else {
 		nameArg = site.Call.Args[0]
 	}
-	want := owner.Name() + ".Name"
+	want := pname(owner) + ".Name"
 	r.Ob(rule, fmt.Sprintf("%s %s script-name argument #%d", relName(f), cal.Name(), retOrdinalInstr(f, site)), t.Pos(site.Pos()), path(nameArg) == want,
 		fmt.Sprintf("name is %s; the call site lies in the script whose CallRef is walked (%s) — any other name reports an intermediate call site in the wrong script", path(nameArg), want))
 }
@@ -634,7 +634,7 @@ func inCallRefLoop(f *ssa.Function, site ssa.Instruction) (*ssa.Parameter, bool)
 	}
 	inLoop := false
 	allInstrs(f, func(in ssa.Instruction) {
-		if ia, ok := in.(*ssa.IndexAddr); ok && strings.HasSuffix(path(ia.X), owner.Name()+".CallRef") && ia.Block().Dominates(site.Block()) {
+		if ia, ok := in.(*ssa.IndexAddr); ok && strings.HasSuffix(path(ia.X), pname(owner)+".CallRef") && ia.Block().Dominates(site.Block()) {
 			inLoop = true
 		}
 	})
